@@ -20,11 +20,11 @@ func init() {
 		"WEAK CLAIM — the core of the property (array shifting/centering, page allocation and buffer compaction as functions on counts) is numeric and NOT decided. DECIDED are structural necessary conditions: "+
 			"D1 entry points agree in every store — Add(i) is AddWithCount(i, 1) (delegation in either direction or equal effects after substituting the weight), AddBin(b) has the effects of AddWithCount(b.index, b.count), AddWithCount(_, 0) writes nothing. "+
 			"D2 cached-total coherence in the dense family — every path that adds a weight into the bin array adds the same term to the cached total; when a collapsing adjust folds bins, the range it sums equals the range it resets and the sum goes to the edge bin (or the whole cached total goes to the single remaining bin). "+
-			"D3 iteration contract — in every ForEach each callback verdict immediately controls a return; the dense and paginated iterators skip empty entries; Bins() closes its channel on every exit; ForEach and Bins of the paginated store (twin implementations of the same merge of sorted buffer and pages) yield the same (index, count) terms under the same path conditions; a weight from outside (a method parameter, a decoded value) is written into the sparse store's map only under a dominating test that it is not zero (entries of another map, callback arguments of an iteration, products and non-zero constants are accepted as they are): every query takes a map entry for a bin. "+
+			"D3 iteration contract — in every ForEach each callback verdict immediately controls a return; the dense and paginated iterators skip empty entries; Bins() closes its channel on every exit; ForEach and Bins of the paginated store (twin implementations of the same merge of sorted buffer and pages) yield the same (index, count) terms under the same path conditions; a weight from outside (a method parameter, a decoded value) is written into the sparse store's map only under a dominating test that it is not zero (entries of another map, callback arguments of an iteration, products and non-zero constants are accepted as they are): every query takes a map entry for a bin; a loop that calls the iteration callback is left only by its range test or on the callback's verdict, never on a comparison of weights. "+
 			"D4 MinIndex/MaxIndex of the dense family and the sparse store return the undefined-index error exactly on the emptiness edge; the sparse store's extremes are folds from the opposite end of the int range that replace the running value exactly when a key lies beyond it, its total is a running sum from 0; the paginated store's extremes read slots of the page table only inside it (by the form of the page number or a taken test), scan every page from its first (MinIndex) resp. last (MaxIndex) line, read every line inside its page (0 ≤ line ≤ len(page) − 1, from the path's comparisons plus: a non-empty page has 1 << log2 lines, x & mask is a line number), leave the table only after its last page, and compare the page number with the page of the buffered extreme non-strictly. "+
 			"D5 window loops of the dense read paths (ForEach, Bins, Encode, encodeSparsely) cover minIndex…maxIndex inclusive (ToProto/EncodeProto/encodeDensely/Reweight are checked by C09/C06/C16). "+
 			"D6 the window-moving primitives of the dense store as linear forms — shiftCounts copies bins[min−off … max−off] to +shift, resets exactly the vacated slots for either sign of the shift and updates offset −= shift; resetBins zeroes bins[from−off … to−off]; centerCounts stores the new window and shifts by offset + len/2 − (newMin + (newMax−newMin+1)/2); truncating integer division is only applied to widths and lengths. "+
-			"D9 page table of the paginated store — the slice of pages and the index of its first page are written only by the page accessor (resolved by role, with the helpers split off it), by Clear, or into a fresh object; elements of a page obtained from the accessor are touched only on paths that created the page (ensureExists is the constant true) or established by its length that it is not empty (Clear keeps emptied slots: a nil test is not enough); a slot pages[x − first] is computed from the table and its first page index of the same moment (no call whose write set reaches the table on a way between the two reads — the accessor re-bases the table when it grows to the left); and when an element page(P)[x & mask] is touched with P computed from that same x, P is x >> log2 (a division rounds the other way for negative indexes) or the path has compared the page of x with P. "+
+			"D9 page table of the paginated store — the slice of pages and the index of its first page are written only by the page accessor (resolved by role, with the helpers split off it), by Clear, or into a fresh object; elements of a page obtained from the accessor are touched only on paths that created the page (ensureExists is the constant true) or established by its length that it is not empty (Clear keeps emptied slots: a nil test is not enough); a slot pages[x − first] is computed from the table and its first page index of the same moment (no call whose write set reaches the table on a way between the two reads — the accessor re-bases the table when it grows to the left); and when an element page(P)[x & mask] is touched with P computed from that same x, P is x >> log2 (a division rounds the other way for negative indexes) or the path has compared the page of x with P; a walk over the table turns a slot number into a page number by adding the first page index before any other arithmetic. "+
 			"SHARED (obligations of other properties that decide clauses this property states too, re-evaluated here under their home rule ids): for DenseStore, SparseStore and BufferedPaginatedStore only — C05-D8 for DenseStore.extendRange (the new window contains the requested range and, on a non-empty store, the old window: bounds are min / max of requested and current). C01-D3 as C04-D7 (rank lookup: first index whose cumulative weight strictly exceeds the rank, buffer sorted first), C02-D2/D3/D4 (merge from any store kind, argument neither written nor captured, cached total and window follow), C14-D2 (Copy defines every field, deep), C15-D1 (Clear covers every written field), C16-D2 (Reweight scales everything held). C13-D3 for the stores' Reweight (a factor ≤ 0 is refused with nothing written: no weightless bins are left behind). C14-D6 for the stores (a protobuf message taken from a store shares no memory with it). C09-D3 for the MergeWithProto loops (every bin of a message is added at its own index). C06-D1 for the store encoders and decoders (writer and reader of each bin layout agree on the width of every field), C06-D2 (every delta read is accumulated), C08-D4 (exactly the announced number of items is read). "+
 			"NOT DECIDED: that weights are never lost, duplicated or misattributed by normalize/extendRange/shiftCounts/page()/compact() — value statements about counts.",
 		"one obligation per store × entry point, per fold site, per callback call site, per window loop, per twin path",
